@@ -162,7 +162,7 @@ def run_shard(ctx):
             if money:
                 res.cover('currency of the amount', code, len(all_codes))
             meta.append((text, form + ('' if via == 'literal' else ':' + via), want_kind, code if money else None, want, scale))
-        rs = mon.run_lines(drv, cfg, items)
+        rs = mon.run_lines(drv, cfg, items, dates=False)
         for (text, form, want_kind, code, want, scale), r in zip(meta, rs):
             slot = mon.last_slot(r)
             res.cases += 1
